@@ -254,6 +254,10 @@ def run(cx):
     # "delivered within bounded time": the retransmission interval of a lost fragment is bounded (capped back-off)
     from props.shared import resend_schedule
     resend_schedule(cx, "C02.u")
+    # a genuine ack marks exactly the fragments its frame carried: a flag written for another fragment drops a lost
+    # fragment of a Reliable packet from the resend queue for good
+    from props.C04 import inst_fragment_flags
+    inst_fragment_flags(cx, "C02.v")
     # a Reliable packet is also "skipped" when the receiver turns it into a data-less packet because its
     # allocation counter drifted (what is charged must be what is released, at both ends), when the frame
     # window refuses the sender's resynchronisation after a fully lost window, or when an id comparison
